@@ -113,7 +113,7 @@ structure GClass where
   precedence : List Sym := []                 -- []slip.Symbol
   initArgs : AList (List GSlot) := []         -- map[string][]*SlotDef
   initForms : AList GSlot := []               -- map[string]*SlotDef
-  defaultInitArgs : AList (Option Val) := []  -- map[string]slip.Object (forms)
+  defaultInitArgs : AList Val := []           -- map[string]slip.Object (forms, written as their values)
 deriving Repr
 
 /-- `*StandardObject`: the instance's own slots (`none` = slip.Unbound); its class object
